@@ -9,7 +9,7 @@ func init() {
 	register(&Check{
 		ID:    "C04",
 		Level: "exploration",
-		Rule: "metamorphic, full product: every body B (all D1 programs of <= n nodes, overlap-prone literals, nullable and multi-line bodies, bodies with captures) x every text over {a,b} (resp. {a,b,\\n}) up to the length bound x EVERY amount clause skip s / skip s take t / top n / take n / last n with s,t,n in 0..maxlen+1, as find and as replace; " +
+		Rule: "metamorphic, full product: every body B (all D1 programs of <= n nodes, overlap-prone literals, nullable and multi-line bodies, bodies with captures - incl. captures bound by only some matches, named in the replacement) x every text over {a,b} (resp. {a,b,\\n}) up to the length bound x EVERY amount clause skip s / skip s take t / top n / take n / last n with s,t,n in 0..maxlen+1, as find and as replace; plus long sequences: 4 bodies x every total of 0..140 (thorough 300) matches x windows skip/take/top/last with sizes 0..6, 15..17, 31..33, 63..67; " +
 			"each clause must return exactly the slice of A = `find all B` that the statement names, records compared field by field incl. MatchNumber; non-trivial = distinct (body,text,clause) triples with len(A) >= 2",
 		Assume: []string{"`last 0` is excluded (undocumented)", "A itself is validated by C01/C03"},
 		Budget: map[string]int{"quick": 120, "thorough": 1200},
@@ -85,6 +85,46 @@ func runC04(c *Ctx) {
 			}
 		}
 	}
+	// optional captures named in the replacement: a match that does not bind the name must not see
+	// the binding of an earlier match of the window
+	if c.Level("optional captures") {
+		for _, b := range []string{"maybe ('b' = x) 'a'", "('a' = x) or 'b'", "at least 0 ('b' = x) fewest 'a'", "'a' maybe ('b' = x)", "('a' = x 'a') or ('a' = y)"} {
+			b := b
+			if c.Unit(func() string { return b }) {
+				unit(b, tab, true)
+			}
+		}
+	}
+	// long match sequences: every total of 0..140 matches x window sizes around the powers of two
+	// (the `last n` window is a queue; `skip`/`take` count up to large values)
+	if c.Level("long sequences") {
+		var lc []amountClause
+		for _, cl := range amountClauses(66) {
+			f := strings.Fields(cl.src)
+			n := 0
+			fmt.Sscan(f[len(f)-1], &n)
+			s := 0
+			fmt.Sscan(f[1], &s)
+			keep := func(x int) bool { return x <= 6 || x == 15 || x == 16 || x == 17 || x == 31 || x == 32 || x == 33 || x >= 63 }
+			if len(f) == 4 && !(keep(s) && (n == 1 || n == 16 || n == 17 || n == 40)) {
+				continue
+			}
+			if len(f) == 2 && !keep(n) {
+				continue
+			}
+			lc = append(lc, cl)
+		}
+		for _, bt := range [][2]string{{"'a'", "a"}, {"'a' maybe 'b'", "ab"}, {"any", "ab"}, {"('a' = x) or 'b'", "ab"}} {
+			bt := bt
+			var txts []string
+			for k := 0; k <= c.Pick(140, 300); k++ {
+				txts = append(txts, strings.Repeat(bt[1], k))
+			}
+			if c.Unit(func() string { return bt[0] + " on 0.." + itoa(len(txts)-1) + " repetitions of " + strQuote(bt[1]) }) {
+				runC04Body(c, bt[0], txts, lc, true)
+			}
+		}
+	}
 	g := gramD1()
 	for n := 1; n <= 3; n++ {
 		if !c.Level("D1:n=" + itoa(n)) {
@@ -110,7 +150,13 @@ func runC04Body(c *Ctx, body string, txts []string, clauses []amountClause, repl
 			if kind == "find" {
 				return "find " + amount + " " + body
 			}
-			return "replace " + amount + " " + body + " with 'x' value '#' matchNumber '@' startOffset '-' endOffset ':' lineNumber"
+			with := " with 'x' value '#' matchNumber '@' startOffset '-' endOffset ':' lineNumber"
+			for _, name := range []string{"x", "y"} {
+				if strings.Contains(body, "= "+name) {
+					with += " '<' " + name + " '>'"
+				}
+			}
+			return "replace " + amount + " " + body + with
 		}
 		all, err, pi := compileSafe(mk("all"))
 		if err != nil || pi != nil {
